@@ -203,6 +203,45 @@ func familyInputs(r *Run, n int) map[string][]byte {
 		f = append(f, dualRegion(maxInt(n-len(f), 65)/65)...)
 		out["label-forward-dual-fan"] = f
 	}
+	{ // pointer structures a decoder may try to be clever about: each name one label plus a pointer to the start of
+		// the previous name (a chain); a pointer whose target is itself a pointer; a pointer to itself; two
+		// pointers to each other; then, past the 14-bit pointer range, bare pointers to the last name of the chain
+		var b []byte
+		prev := 0
+		b = append(b, 3, 'a', 'b', 'c', 0)
+		for len(b)+6 <= n {
+			start := len(b)
+			if prev < 1<<14 {
+				b = append(b, 1, 'x', 0xc0|byte(prev>>8), byte(prev))
+				prev = start
+			} else {
+				b = append(b, 0xc0|byte(prev>>8), byte(prev))
+			}
+		}
+		out["label-pointer-chain"] = b
+		out["v6-domain-list-pointer-chain"] = append([]byte{1, 0, 0, 1}, tlvb(24, clip(b, 65000))...)
+		var pp []byte
+		pp = append(pp, 3, 'a', 'b', 'c', 0, 0xc0, 0)
+		for len(pp)+2 <= n {
+			t := len(pp) - 2
+			if t >= 1<<14 {
+				t = 5
+			}
+			pp = append(pp, 0xc0|byte(t>>8), byte(t))
+		}
+		out["label-pointer-to-pointer"] = pp
+		var sp []byte
+		for len(sp)+2 <= n && len(sp) < 1<<14 {
+			sp = append(sp, 0xc0|byte(len(sp)>>8), byte(len(sp)))
+		}
+		out["label-self-pointers"] = sp
+		var mp []byte
+		for len(mp)+4 <= n && len(mp) < 1<<14 {
+			a := len(mp)
+			mp = append(mp, 0xc0|byte((a+2)>>8), byte(a+2), 0xc0|byte(a>>8), byte(a))
+		}
+		out["label-mutual-pointers"] = mp
+	}
 	{ // unterminated label chain
 		var b []byte
 		for len(b)+2 <= n {
